@@ -387,6 +387,30 @@ Proof.
     rewrite (HF1 _ N1) in L1. rewrite (HF1 _ N2) in L2. apply (E g1 g2 a1 a2 i); auto.
 Qed.
 
+(* the future [fid] changes without touching its listener on this event or its poll bookkeeping *)
+Lemma InvB_same wk l nid look look' fid f f' :
+  InvB wk l nid look -> look fid = Some f -> look' fid = Some f' ->
+  (forall g, g <> fid -> look' g = look g) ->
+  lis f' = lis f -> meta f' = meta f ->
+  InvB wk l nid look'.
+Proof.
+  intros [A B C D E] L L' HF1 HL HM. constructor; auto.
+  - intros e He. destruct (C e He) as (g & fg & Lg & Sg & Ok).
+    destruct (Nat.eq_dec g fid) as [->|N].
+    + rewrite L in Lg. inversion Lg; subst fg. exists fid, f'. split; [exact L'|]. rewrite HL, HM. split; assumption.
+    + exists g, fg. rewrite (HF1 g N). auto.
+  - intros g fg i Lg Sg. destruct (Nat.eq_dec g fid) as [->|N].
+    + rewrite L' in Lg. inversion Lg; subst fg. rewrite HL in Sg. apply (D fid f i L Sg).
+    + rewrite (HF1 g N) in Lg. apply (D g fg i Lg Sg).
+  - intros g1 g2 a1 a2 i L1 L2 S1 S2.
+    assert (T : forall g a, look' g = Some a -> lis a = Some i -> exists a0, look g = Some a0 /\ lis a0 = Some i).
+    { intros g a La Sa. destruct (Nat.eq_dec g fid) as [->|N].
+      - rewrite L' in La. inversion La; subst a. exists f. split; [exact L | rewrite <- HL; exact Sa].
+      - exists a. rewrite <- (HF1 g N). split; assumption. }
+    destruct (T g1 a1 L1 S1) as (b1 & M1 & T1). destruct (T g2 a2 L2 S2) as (b2 & M2 & T2).
+    apply (E g1 g2 b1 b2 i); assumption.
+Qed.
+
 (* the future [fid] drops its listener on this event (cancellation, or completion without polling it):
    the entry is removed and a notification it holds is forwarded *)
 Lemma InvB_drop_own wk l nid look look' fid f :
